@@ -63,7 +63,7 @@ def ns_inputs(draw, tier, full_rank_only=False, rank_def_only=False, wide_range=
             A[draw(st.integers(0, m - 1))] = 0.0
         kind = kind + "|empty_line"
     if draw(st.integers(0, 3)) == 0:
-        A = A * 10.0 ** draw(st.sampled_from([-10, -9, -8, -6, 6, 8]))      # the recurrence is scale covariant
+        A = A * 10.0 ** draw(st.sampled_from([-10, -9, -8, -6, 6, 8, -20, -30, -40, 20, 40]))      # the recurrence is scale covariant
         kind = kind + "|scaled"
     return np.ascontiguousarray(A), kind
 
